@@ -110,9 +110,12 @@ pub fn correctly_rounded(aa: u64, f: u32, p: u64, k: usize) -> bool {
 /// library stops as soon as the remaining fraction register (of its working word of `cb` bits) is
 /// within 10 units of zero, also when that remainder is a genuine non-zero part of the value.
 #[inline(always)]
-pub fn close_to_zero_fires(frac_bits: u64, f: u32, max_digits: usize) -> bool {
-    // working word: the smallest of 8/16/32/64 bits with f >= cb/2 (u8 for f < 8)
-    let cb: u32 = if f < 8 { 8 } else if f < 16 { 16 } else if f < 32 { 32 } else { 64 };
+pub fn close_to_zero_fires(frac_bits: u64, f: u32, w: u32, max_digits: usize) -> bool {
+    // working word: the type's own word, halved while f < word/2 (the library's attempt_half fast path; never below u8)
+    let mut cb: u32 = w;
+    while cb > 8 && f < cb / 2 {
+        cb /= 2;
+    }
     let mask: u128 = (1u128 << cb) - 1;
     let mut reg: u128 = ((frac_bits as u128) << (cb - f)) & mask;
     let mut i = 0;
@@ -144,7 +147,7 @@ macro_rules! c09_display {
             let aa = aa as u64;
             if cfg!(feature = "kf_c09_close_to_zero") {
                 let fm: u64 = if $F == 0 { 0 } else { (1u64 << $F) - 1 };
-                kani::assume(!close_to_zero_fires(aa & fm, $F, 12));
+                kani::assume(!close_to_zero_fires(aa & fm, $F, <$I>::BITS, 12));
             }
             let mut s = Sink::new();
             let r = write!(s, "{}", x);
@@ -170,7 +173,7 @@ macro_rules! c09_roundtrip {
             let (_neg, aa) = bits.neg_abs();
             if cfg!(feature = "kf_c09_close_to_zero") {
                 let fm: u64 = if $F == 0 { 0 } else { (1u64 << $F) - 1 };
-                kani::assume(!close_to_zero_fires((aa as u64) & fm, $F, 12));
+                kani::assume(!close_to_zero_fires((aa as u64) & fm, $F, <$I>::BITS, 12));
             }
             let mut s = Sink::new();
             let r = write!(s, "{:?}", x);
@@ -199,7 +202,7 @@ macro_rules! c09_prec {
             kani::assume(p <= $PMAX);
             if cfg!(feature = "kf_c09_close_to_zero") {
                 let fm: u64 = if $F == 0 { 0 } else { (1u64 << $F) - 1 };
-                kani::assume(!close_to_zero_fires(aa & fm, $F, p));
+                kani::assume(!close_to_zero_fires(aa & fm, $F, <$I>::BITS, p));
             }
             let mut s = Sink::new();
             let r = write!(s, "{:.*}", p, x);
